@@ -48,9 +48,10 @@ class Clock:
         self.blocked = 0.0        # virtual seconds slept inside the current loop iteration
         self.max_blocked = 0.0    # maximum over the run
         self.block_sites = {}     # site -> max blocked seen
+        self.block_pids = {}      # site -> (pid waited for, time the block began)
 
 
-def _circus_stack(limit=8):
+def _circus_stack(limit=8, info=None):
     """function names of the circus frames on the stack, innermost first"""
     out = []
     f = sys._getframe(2)
@@ -61,6 +62,8 @@ def _circus_stack(limit=8):
             name = f.f_code.co_name
             if name not in ('_log', 'wrapper') and (not out or out[-1] != name):
                 out.append(name)
+                if info is not None and 'pid' not in info and isinstance(f.f_locals.get('pid'), int):
+                    info['pid'] = f.f_locals['pid']
         f = f.f_back
     return out
 
@@ -85,13 +88,17 @@ class VTime(types.ModuleType):
         if c.blocked > c.max_blocked:
             c.max_blocked = c.blocked
         if c.blocked > 0.05:
-            site = '<-'.join(_circus_stack())
+            info = {}
+            site = '<-'.join(_circus_stack(info=info))
             if c.blocked > c.block_sites.get(site, 0):
                 c.block_sites[site] = c.blocked
+                c.block_pids[site] = (info.get('pid'), c.now - c.blocked)
         if c.blocked > self.STALL_BUDGET:
-            site = '<-'.join(_circus_stack())
+            info = {}
+            site = '<-'.join(_circus_stack(info=info))
             if w.stalled is None:
-                w.stalled = {'site': site, 't': round(c.now - EPOCH, 4),
+                w.stalled = {'site': site, 't': round(c.now - EPOCH, 4), 'pid': info.get('pid'),
+                             't_block': c.now - c.blocked,
                              'why': 'blocked in time.sleep for %.1fs of virtual time inside one '
                                     'loop iteration' % c.blocked}
             raise Stalled(site)
@@ -643,6 +650,8 @@ class World:
         _CUR = self
         asyncio.set_event_loop(self.aloop)
         self.loop = ioloop.IOLoop.current()
+        self.loop_exceptions = []      # exceptions swallowed by the event loop
+        self.aloop.set_exception_handler(self._on_loop_exception)
         self.arb = None
         self.next_mid = 0
         self.sent = {}          # mid -> dict(cmd, props, t, iter)
@@ -651,6 +660,15 @@ class World:
         self.reply_hooks = []   # callables(body) run at the instant a reply body is written
         _AUDIT['hits'].clear()
         _AUDIT['on'] = True
+
+    def _on_loop_exception(self, loop, context):
+        exc = context.get('exception')
+        if isinstance(exc, Stalled):
+            return
+        self.loop_exceptions.append((round(self.now(), 4), str(context.get('message'))[:120],
+                                     type(exc).__name__ if exc is not None else None,
+                                     str(exc)[:200] if exc is not None else None,
+                                     str(context.get('handle'))[:160]))
 
     # ---- life cycle
     def close(self):
